@@ -218,7 +218,7 @@ Apply(S, op, arg) ==
                            !.z = [j \in 1..arg[1] |-> [i \in 1..N(S) |-> S.z[1][i] + 100000 * (j - 1)]],
                            !.box = IF Has(S.box) THEN <<[j \in 1..arg[1] |-> Get(S.box)[1]]>> ELSE NoneV],
                  <<>>)
-    [] op = "repeat" ->         \* arg[1] >= 1 repetitions; copy j has cells + 200000*j
+    [] op = "repeat" ->         \* arg[1] >= 0 repetitions (0: no atoms are left); copy j has cells + 200000*j
          Ok([S EXCEPT !.a = Rep(S.a, arg[1]),
                       !.z = [k \in 1..D(S) |->
                                [i \in 1..(N(S) * arg[1]) |->
@@ -274,6 +274,11 @@ Apply(S, op, arg) ==
     [] op = "copy_poke" -> Ok(S, "original_unchanged")
     \* mutate the original in place after copying: the copy must not move
     [] op = "poke_after_copy" -> Ok(S, "copy_unchanged")
+    \* derive an object that holds all atoms (arg[1] = "slice": [0:n]; "model": the first model of a stack /
+    \* get_array(0); "repeat1": repeat() with one repetition; "stack1": stack() of the array alone), assign every
+    \* annotation of the DERIVED object as a whole (set_annotation with values of the same dtype) and, for the
+    \* slice, edit its bond list: the object at hand must not move (an annotation edit rebinds, it never writes through)
+    [] op = "derived_edit" -> Ok(S, "source_unchanged")
     [] op = "from_template" ->  \* arg = <<depth, withBox>>: new stack, cells 300000 + 1000*k + i
          Ok([S EXCEPT !.kind = "stack",
                       !.z = [k \in 1..arg[1] |-> [i \in 1..N(S) |-> 300000 + 1000 * k + i]],
